@@ -208,7 +208,7 @@ func vpRandRead(b []byte) (int, error) {
 }
 
 //vp:property C13
-//vp:bounds every failure point of the callback (state unknown/expired, code refused, id_token absent/non-string, verification failure, claims undecodable, payload not JSON, each of the four user-name claims absent / string of <= 2 bytes incl. empty / non-string, the first possibly spelled in another capitalisation), session store failing or not; state and code strings of 2 symbolic bytes
+//vp:bounds every failure point of the callback (state unknown/expired, code refused, id_token absent/non-string, verification failure, claims undecodable, payload not JSON, each of the four user-name claims absent / string of <= 2 bytes incl. empty / non-string, the first possibly spelled in another capitalisation), session store failing or not; state and code strings of 2 symbolic bytes; the request with or without further parameters of its sender's choosing (id_token and access_token, in the query string or in a posted form)
 //vp:assume go-cache, oauth2, go-oidc and encoding/json contracts of DESIGN Appendix C
 //vp:reach logged-in rejected noclaim
 func VP_C13_callback() {
@@ -227,6 +227,16 @@ func VP_C13_callback() {
 	}
 	presented := vpStringN("presented-state", 2)
 	vpQueryVals = url.Values{"state": {presented}, "code": {vpStringN("code", 2)}}
+	vpFormVals = nil
+	// whoever sends the callback request chooses its parameters: further ones, in the query string or in a
+	// posted form, change nothing (tokens come from the identity provider's token endpoint only)
+	switch vpIntRange("further-callback-parameters", 0, 2) {
+	case 1:
+		vpQueryVals["id_token"] = []string{"raw-id-token"}
+		vpQueryVals["access_token"] = []string{"at"}
+	case 2:
+		vpFormVals = url.Values{"id_token": {"raw-id-token"}, "access_token": {"at"}}
+	}
 	id := identity.NewUser()
 	w := vpNewRW()
 	h.HandleCallback(w, vpRequest("GET", http.Header{}, id))
